@@ -67,7 +67,7 @@ def setup(c):
     if c.get('index_dir'):
         idx = os.path.join(d, 'index')
         a = P.parse_args(['generateIndex', '-o', idx, '-q', '--cleavage-exception', c.get('exc', 'none')]
-                         + [str(x) for x in c.get('cleavage_args', [])] + ref)
+                         + [str(x) for x in c.get('cleavage_args', [])] + [str(x) for x in c.get('ref_args', [])] + ref)
         a.func(a)
         ref = ['--index-dir', idx]
     if c.get('gvf_idx'):
@@ -80,7 +80,7 @@ def call_variant(c, d, ref, gvfs, P):
     out = os.path.join(d, 'out.fasta')
     argv = ['callVariant', '-i'] + gvfs + ['-o', out, '--threads', str(c['threads']), '-q',
                                          '--cleavage-exception', c.get('exc', 'none')] + ref
-    argv += [str(x) for x in c.get('cleavage_args', [])] + [str(x) for x in c.get('call_args', [])]
+    argv += [str(x) for x in c.get('cleavage_args', [])] + [str(x) for x in c.get('call_args', [])] + [str(x) for x in c.get('ref_args', [])]
     if c.get('noncanonical'):
         argv.append('--noncanonical-transcripts')
     if c.get('skip_failed'):
